@@ -3,3 +3,5 @@
 package websocket
 
 func verifGate(c *Conn, point string) {}
+
+func verifWire(c *Conn, buf0, buf1 []byte) {}
